@@ -131,6 +131,11 @@ pub struct Case {
     /// scenario-specific integers (documented per scenario)
     #[serde(default)]
     pub n: Vec<i64>,
+    /// how the simulated reader fills the ReadBuf (all legal for an AsyncRead):
+    /// 0 = put_slice; 1 = initialise the whole unfilled region, copy, advance;
+    /// 2 = initialise exactly the delivered bytes, copy, advance
+    #[serde(default)]
+    pub reader_style: u8,
 }
 
 impl Case {
@@ -154,6 +159,7 @@ impl Case {
             write_faults: vec![],
             cut: None,
             n: vec![],
+            reader_style: 0,
         }
     }
 
@@ -332,12 +338,15 @@ pub fn gen_cancel(rng: &mut Rng, script: &[ReadEv], permil: u64) -> Vec<bool> {
 
 pub fn gen_write_script(rng: &mut Rng, len: usize, pend_permil: u64, eintr_permil: u64) -> (Vec<WriteEv>, usize) {
     let mut s = Vec::new();
-    let mode = rng.below(4);
+    let mode = rng.below(6);
     let (k, tail) = match mode {
         0 => (usize::MAX, 0),
         1 => (1, 1),
         2 => (rng.urange(2, 9), 0),
-        _ => (rng.urange(2, 200), 0),
+        3 => (rng.urange(2, 200), 0),
+        // large chunks: sinks that take kilobytes at a time and then come up short
+        4 => (rng.urange(1000, 70_000), 0),
+        _ => (*rng.pick(&[4096usize, 8192, 16_384, 16_385, 32_768, 65_536]), 0),
     };
     let mut pos = 0;
     while pos < len && s.len() < 256 {
@@ -347,7 +356,7 @@ pub fn gen_write_script(rng: &mut Rng, len: usize, pend_permil: u64, eintr_permi
         if rng.below(1000) < eintr_permil {
             s.push(WriteEv::Interrupted);
         }
-        let n = if k == usize::MAX { len } else { rng.urange(1, k) };
+        let n = if k == usize::MAX { len } else if mode == 5 { if rng.chance(1, 3) { rng.urange(1, k) } else { k } } else { rng.urange(1, k) };
         s.push(WriteEv::Accept(n));
         pos += n;
     }
